@@ -102,8 +102,10 @@ namespace foonathan
             memory_pool& operator=(memory_pool&& other) noexcept
             {
                 leak_checker::operator=(detail::move(other));
-                arena_     = detail::move(other.arena_);
+                // the free list is assigned first: its move assignment relinks the nodes
+                // of the old list, which live in blocks the arena assignment gives back
                 free_list_ = detail::move(other.free_list_);
+                arena_     = detail::move(other.arena_);
                 return *this;
             }
             /// @}
